@@ -1,5 +1,6 @@
 from .base.kd_stochastic_transform import KDStochasticTransform
 from .kd_gaussian_blur_pil import KDGaussianBlurPIL
+from .kd_gaussian_blur_tv import KDGaussianBlurTV
 from .kd_grayscale import KDGrayscale
 from .kd_solarize import KDSolarize
 
@@ -20,7 +21,7 @@ class KDThreeAugment(KDStochasticTransform):
             self.gaussian_blur = KDGaussianBlurPIL(sigma=sigma)
         elif blur_kind in ["tv", "torchvision"]:
             assert kernel_size is not None
-            self.gaussian_blur = KDGaussianBlurPIL(sigma=sigma, kernel_size=kernel_size)
+            self.gaussian_blur = KDGaussianBlurTV(sigma=sigma, kernel_size=kernel_size)
         else:
             raise NotImplementedError
 
